@@ -359,20 +359,3 @@ def dist_transform(text, valuations):
             pairs.append(pr)
     res["pairs"] = pairs
     return res
-
-
-def analyze_repaired(text, goals, subs=None, nmax=4):
-    """in-memory repair used for attribution (F43): `RecBuilder._reduce_powers` expands its argument before it
-    splits it with `get_terms_with_vars` (a mathematically neutral step), everything else unchanged"""
-    from recurrences import RecBuilder
-    from .analyze import analyze
-    orig = RecBuilder._reduce_powers
-
-    def patched(self, poly):
-        return orig(self, poly.expand())
-
-    RecBuilder._reduce_powers = patched
-    try:
-        return analyze(text, goals, subs=subs, nmax=nmax)
-    finally:
-        RecBuilder._reduce_powers = orig
